@@ -957,6 +957,15 @@ def _ops_reaching(d, df):
     return out
 
 
+def overlapping_same_key_subfields(rng, sv, doc):
+    """invalid twin of `valid_ops.exclusive_parents_construct`: the two parents CAN overlap (same object type)"""
+    d = copy.deepcopy(doc)
+    feat = vo.exclusive_parents_construct(rng, sv, d, exclusive=False)
+    if feat is None:
+        return None
+    return d, feat
+
+
 def allowed_position_multi_op(rng, sv, doc):
     """two operations share a fragment (directly or through a nested fragment) that uses `$zzm`; one operation
     declares it with an allowed type, the other with a type that is not allowed at that position (spec 5.8.5 is per
@@ -1170,6 +1179,7 @@ INJECTORS = [
     ("all_variables_used", "5.8.4", ["NoUnusedVariablesChecker"], all_variables_used),
     ("all_variable_usages_allowed", "5.8.5", ["VariablesInAllowedPositionChecker"], variable_usages_allowed),
     ("all_variable_usages_allowed", "5.8.5", ["VariablesInAllowedPositionChecker"], allowed_position_multi_op),
+    ("overlapping_fields_can_be_merged", "5.3.2", ["OverlappingFieldsCanBeMergedChecker"], overlapping_same_key_subfields),
     ("fields_on_correct_type", "5.3.1", ["FieldsOnCorrectTypeChecker"], stack_leak_unknown_field),
     # the same rules, violated inside `... { }` under a list / non-null field
     ("fields_on_correct_type", "5.3.1", ["FieldsOnCorrectTypeChecker"], _bare(_b_unknown_field)),
